@@ -1,8 +1,64 @@
 // commands for segment
 use crate::*;
 
+use crate::segment::{Segment, SegmentResult};
+
+fn string_of_result(r: &SegmentResult) -> String {
+    match r {
+        SegmentResult::Halt => "halt".to_string(),
+        SegmentResult::Blank => "blank".to_string(),
+        SegmentResult::Repeat => "repeat".to_string(),
+        SegmentResult::Spinout => "spinout".to_string(),
+        SegmentResult::DepthLimit => "depth_limit".to_string(),
+        SegmentResult::SegmentLimit => "segment_limit".to_string(),
+        SegmentResult::Refuted(step) => format!("refuted:{step}"),
+    }
+}
+
+fn string_of_py_result(r: &wrappers::SegmentResult) -> String {
+    match r {
+        wrappers::SegmentResult::halt {} => "halt".to_string(),
+        wrappers::SegmentResult::blank {} => "blank".to_string(),
+        wrappers::SegmentResult::repeat {} => "repeat".to_string(),
+        wrappers::SegmentResult::spinout {} => "spinout".to_string(),
+        wrappers::SegmentResult::depth_limit {} => "depth_limit".to_string(),
+        wrappers::SegmentResult::segment_limit {} => "segment_limit".to_string(),
+        wrappers::SegmentResult::refuted { step } => format!("refuted:{step}"),
+    }
+}
+
+// id|seg|<goal>|<prog>|<S>,<C>|<segs>
+fn cmd_seg(goal: &str, prog: &str, params: &str, segs: &str) -> String {
+    let comp = CompProg::from_str(prog);
+    let pr: Vec<u64> = params.split(',').map(|x| x.trim().parse().unwrap()).collect();
+    assert!(pr.len() == 2);
+    let params = (pr[0], pr[1]);
+    let segs: usize = segs.trim().parse().unwrap();
+    let res = match goal {
+        "halt" => comp.seg_cant_halt(params, segs),
+        "blank" => comp.seg_cant_blank(params, segs),
+        "spin" => comp.seg_cant_spin_out(params, segs),
+        _ => return "HARNESS-ERROR:bad goal".to_string(),
+    };
+    string_of_result(&res)
+}
+
+// id|segpy|<goal>|<prog>|<segs>
+fn cmd_segpy(goal: &str, prog: &str, segs: &str) -> String {
+    let segs: usize = segs.trim().parse().unwrap();
+    let res = match goal {
+        "halt" => wrappers::py_segment_cant_halt(prog, segs),
+        "blank" => wrappers::py_segment_cant_blank(prog, segs),
+        "spin" => wrappers::py_segment_cant_spin_out(prog, segs),
+        _ => return "HARNESS-ERROR:bad goal".to_string(),
+    };
+    string_of_py_result(&res)
+}
+
 pub fn dispatch(fields: &[&str]) -> Option<String> {
     match fields {
+        ["seg", goal, prog, params, segs] => Some(cmd_seg(goal, prog, params, segs)),
+        ["segpy", goal, prog, segs] => Some(cmd_segpy(goal, prog, segs)),
         _ => None,
     }
 }
